@@ -48,7 +48,8 @@ def func_ast(f):
     k = (code.co_filename, code.co_firstlineno, code.co_name)
     if k not in _src_cache:
         try:
-            src = textwrap.dedent(inspect.getsource(f))
+            # from the code object: inspect.getsource(function) would follow __wrapped__
+            src = textwrap.dedent(inspect.getsource(f.__code__))
         except (OSError, TypeError):
             src = _frozen_source(f)
         tree = ast.parse(src)
@@ -414,11 +415,9 @@ def p_chr(I, x):
     if isinstance(x, SInt):
         from .seq import WS
 
-        if x.bv is not None and x.bv.size() <= WS:
-            return SSeq("str", [z3.ZeroExt(WS - x.bv.size(), x.bv) if x.bv.size() < WS else x.bv], 1)
-        if not ctx().decide(z3.And(x.e >= 0, x.e < 0x110000)):
+        if not bool(sand(x >= 0, x < 0x110000)):
             raise ValueError("chr() arg not in range(0x110000)")
-        return SSeq("str", [z3.Int2BV(x.e, WS)], 1)
+        return SSeq("str", [x.low_bits(WS)], 1)
     return chr(x)
 
 
@@ -1017,7 +1016,7 @@ class Interp:
         if fobj is not None:
             sig = Interp._sig_cache.get(fobj)
             if sig is None:
-                sig = Interp._sig_cache[fobj] = inspect.signature(fobj)
+                sig = Interp._sig_cache[fobj] = inspect.signature(fobj, follow_wrapped=False)
             ba = sig.bind(*args, **kwargs)
             ba.apply_defaults()
             env.vars.update(ba.arguments)
